@@ -2,6 +2,8 @@
 (* Batch validator for law instances logged by harness/drivers/laws.py (ndjson, IOEnv.TRACE_FILE).       *)
 (* One line per transition of the MC_Laws state graph (or simulated behaviour step):                      *)
 (*   {"tid", "pre": cfg, "act": act, "post": cfg, "kappa": {"decade": d},                                 *)
+(*    "fine": {"e": 0 | 5 | 6 | 7} (0: lattice poses, q8 values; e > 0: small-angle image with increments    *)
+(*            scaled by 10^-e, two-limb values),                                                           *)
 (*    "mesh": {"b": [status per source], "a": [...]},                                                     *)
 (*    "obs": [ per observer {"B": ob, "H": ob, "J": ob, "jin": {"b": [[bool]], "a": [[bool]]}} ]}         *)
 (*   ob == {"b": before[s][i] (3 integers, or 3 two-limb pairs for C13), "a": after, "xs": decade shift    *)
@@ -15,7 +17,7 @@ VARIABLE x
 
 Trace == ndJsonDeserialize(IOEnv.TRACE_FILE)
 
-PropOf(act) == CASE act.name \in {"RigidMove", "Reconcretize"} -> "C03"
+PropOf(act) == CASE act.name \in {"RigidMove", "Reconcretize", "Freeze"} -> "C03"
                  [] act.name \in {"Rescale", "ScaleExc"} -> "C12"
                  [] OTHER -> "C13"
 ClsOf(e) == IF "i" \in DOMAIN e.act THEN (IF e.act.name = "Merge" THEN e.post.srcs[e.act.i].cls ELSE e.pre.srcs[e.act.i].cls)
@@ -39,9 +41,18 @@ FieldVerdict(e, j, f, dist) ==
      ELSE IF IsPolygon(act) THEN
             LET e1 == MaxDev(ob.c, ob.p[1])  e2 == MaxDev(ob.c, ob.p[2])  e3 == MaxDev(ob.c, ob.p[3])
             IN IF RateOK(e1, e2) /\ RateOK(e2, e3) /\ e3 < e1 THEN "ok" ELSE "PolygonRate"
+     ELSE IF e.fine.e > 0 THEN
+            \* small-angle image of the paths: two-limb values; the value law at 1e-8 / 1e-5 and the law of the CHANGE along the path
+            LET g == IF act.name = "RigidMove" /\ ~e.pre.sens.on THEN M3(act.g) ELSE IdM IN
+            CASE act.name = "Freeze" -> (IF PlacementConclusion12(ob, act.m, Tol12(dist)) THEN "ok" ELSE "Placement")
+              [] act.name \in {"RigidMove", "Reconcretize"} ->
+                   (IF ~MoveConclusion12(ob, g, Tol12(dist)) THEN (IF act.name = "RigidMove" THEN "Covariance" ELSE "KappaInvariance")
+                    ELSE IF dist = "near" /\ f # "J" /\ ~ChangeConclusion12(ob, g, TolChange12(e.fine.e)) THEN "PathChange" ELSE "ok")
+              [] OTHER -> "UnknownLaw"
      ELSE CASE act.name = "RigidMove" ->
                  (IF MoveConclusion(ob, IF e.pre.sens.on THEN IdM ELSE M3(act.g), Tol8(dist)) THEN "ok" ELSE "Covariance")
             [] act.name = "Reconcretize" -> (IF MoveConclusion(ob, IdM, Tol8(dist)) THEN "ok" ELSE "KappaInvariance")
+            [] act.name = "Freeze" -> (IF PlacementConclusion(ob, act.m, Tol8(dist)) THEN "ok" ELSE "Placement")
             [] act.name = "Rescale" ->
                  (IF ~ExpOK(ob, IF f = "J" THEN 0 ELSE LenExp(e.pre.srcs[1]) * act.k) THEN "RescaleExponent"
                   ELSE IF ScaleConclusion(ob, 1, Tol8(dist)) THEN "ok" ELSE "RescaleValue")
@@ -67,10 +78,12 @@ TruthOK(e, j) == PropOf(e.act) # "C12" \/ \A s \in 1..Len(e.pre.srcs) : \A i \in
 \* observation not identically zero (a non-trivial instance)
 NonTrivial(e, j) == LET ob == e.obs[j].B IN
                     IF IsPolygon(e.act) THEN TRUE
-                    ELSE IF PropOf(e.act) = "C13" THEN \E s \in 1..Len(ob.b) : \E i \in 1..Len(ob.b[s]) : \E c \in 1..3 : ob.b[s][i][c][1] # 0
+                    ELSE IF PropOf(e.act) = "C13" \/ e.fine.e > 0 THEN \E s \in 1..Len(ob.b) : \E i \in 1..Len(ob.b[s]) : \E c \in 1..3 : ob.b[s][i][c][1] # 0
                     ELSE ~AllZeroOb(ob.b)
 
-PremiseOK(e) == Premise(e.pre, e.act, e.post) /\ (PropOf(e.act) = "C12" => LabelsOK(e.pre))
+PremiseOK(e) == /\ Premise(e.pre, e.act, e.post) /\ (PropOf(e.act) = "C12" => LabelsOK(e.pre))
+                \* small-angle image: the observers are strictly off the surfaces of the limit configuration too
+                /\ (e.fine.e > 0 => e.fine.e \in 5..7 /\ FinePremise(e.pre) /\ (e.act.name # "Freeze" => FinePremise(e.post)))
 \* context of a rejection: law, class, representation / observer mode, observer class, distance class, decade of the lattice
 \* unit after the step, field, smallest decade involved (before or after the step)
 Ctx(e, lab, dist, f) == <<e.act.name, ClsOf(e), RepOf(e), lab, dist, DecadeOf(e), f, Min2(DecadeOf(e), e.kappa.decade + e.pre.k)>>
